@@ -20,8 +20,11 @@ import gc
 import re
 import sys
 import types
+import warnings
 
 COARSE = 64
+SPARSE_AFTER = 60000
+SPARSE = 8
 MAX_EVENTS = 400
 _U64 = ctypes.c_uint64
 # PyDictObject: ob_refcnt, ob_type, ma_used, ma_version_tag
@@ -138,6 +141,15 @@ def collect():
     return cells
 
 
+USE_TAGS = version_tags_work()
+
+
+def _ident(o):
+    if isinstance(o, dict):
+        return (len(o), tuple(map(id, o)), tuple(map(id, o.values())))
+    return (len(o), tuple(map(id, o)))
+
+
 class WriteTracker:
     def __init__(self):
         self.events = []
@@ -150,30 +162,43 @@ class WriteTracker:
         self.n_cells = len(cells)
         dense = [c for c in cells if '_pgen_grammar' not in c[0]]
         coarse = [c for c in cells if '_pgen_grammar' in c[0]]
-        self.d_addr = [id(o) + _VT_OFFSET for _, o, k in dense if k == 'dict']
-        self.d_lab = [lab for lab, o, k in dense if k == 'dict']
-        self.o_objs = [o for _, o, k in dense if k != 'dict']
-        self.o_lab = [lab for lab, o, k in dense if k != 'dict']
-        self.c_addr = [id(o) + _VT_OFFSET for _, o, k in coarse if k == 'dict']
-        self.c_lab = [lab for lab, o, k in coarse if k == 'dict']
-        self.c_objs = [o for _, o, k in coarse if k != 'dict']
-        self.c_olab = [lab for lab, o, k in coarse if k != 'dict']
+        tagged = (lambda k: k == 'dict') if USE_TAGS else (lambda k: False)
+        self.d_addr = [id(o) + _VT_OFFSET for _, o, k in dense if tagged(k)]
+        self.d_lab = [lab for lab, o, k in dense if tagged(k)]
+        self.o_objs = [o for _, o, k in dense if not tagged(k)]
+        self.o_lab = [lab for lab, o, k in dense if not tagged(k)]
+        self.c_addr = [id(o) + _VT_OFFSET for _, o, k in coarse if tagged(k)]
+        self.c_lab = [lab for lab, o, k in coarse if tagged(k)]
+        self.c_objs = [o for _, o, k in coarse if not tagged(k)]
+        self.c_olab = [lab for lab, o, k in coarse if not tagged(k)]
         self.s_dense = self._snap_dense()
         self.s_coarse = self._snap_coarse()
+        self.s_interp = self._interp()
 
     def _snap_dense(self):
         fa = _U64.from_address
-        return [fa(a).value for a in self.d_addr], [(len(o), tuple(map(id, o))) for o in self.o_objs]
+        return [fa(a).value for a in self.d_addr], [_ident(o) for o in self.o_objs]
 
     def _snap_coarse(self):
         fa = _U64.from_address
         return [fa(a).value for a in self.c_addr], [len(o) for o in self.c_objs]
 
+    @staticmethod
+    def _interp():
+        # process-wide interpreter settings are shared state too (not reachable from parso's modules)
+        return (sys.getrecursionlimit(), gc.isenabled(), len(warnings.filters), sys.getswitchinterval())
+
     def probe(self, step, frame):
         changed = None
+        i = self._interp()
+        if i != self.s_interp:
+            changed = ['<interpreter> (recursion limit, gc, warnings filters, switch interval) %r -> %r' % (self.s_interp, i)]
+            self.s_interp = i
+        elif step > SPARSE_AFTER and step % SPARSE:
+            return                           # very long calls: containers every SPARSE lines only
         s = self._snap_dense()
         if s != self.s_dense:
-            changed = [self.d_lab[i] for i, (a, b) in enumerate(zip(s[0], self.s_dense[0])) if a != b]
+            changed = (changed or []) + [self.d_lab[i] for i, (a, b) in enumerate(zip(s[0], self.s_dense[0])) if a != b]
             changed += [self.o_lab[i] for i, (a, b) in enumerate(zip(s[1], self.s_dense[1])) if a != b]
         if step % COARSE == 0:
             c = self._snap_coarse()
